@@ -98,7 +98,7 @@ func (unpacker *RtpUnpackerAac) TryUnpackOne(list *RtpPacketList) (unpackedFlag 
 
 		seq := p.Packet.Header.Seq
 		p = p.Next
-		packetCount := 0
+		packetCount := 1 // the first fragment, the loop below counts the following ones
 		for {
 			packetCount++
 			if p == nil {
